@@ -98,7 +98,7 @@ class TLCResult(dict):
 
 
 def run_tlc(module, cfg_text, *, workers=None, timeout=1200, env=None, extra=(), coverage=False,
-            name=None, simulate=None, depth=None, allow_violation=False, heap=None, dfs=False):
+            name=None, simulate=None, depth=None, allow_violation=False, heap=None, dfs=False, extra_modules=None):
     """Run TLC on spec/<...>/<module>.tla with the given cfg text.
 
     Returns TLCResult(generated, distinct, depth, out, violated=<name or None>, coverage={action: count}).
@@ -106,6 +106,9 @@ def run_tlc(module, cfg_text, *, workers=None, timeout=1200, env=None, extra=(),
     """
     wd = subdir("tlc-" + (name or module) + "-%d" % int(time.time() * 1000 % 10**9))
     mod = _stage(module, cfg_text, wd)
+    for mname, mtext in (extra_modules or {}).items():     # generated wrapper modules (e.g. constants given as definitions)
+        with open(os.path.join(wd, mname + ".tla"), "w") as fh:
+            fh.write(mtext)
     cmd = ["java", "-XX:+UseParallelGC", "-Xmx" + (heap or "8g")]
     if dfs:
         cmd.append("-Dtlc2.tool.queue.IStateQueue=StateDeque")
